@@ -3,7 +3,7 @@
 import json, os
 V = os.path.dirname(os.path.dirname(os.path.abspath(__file__)))
 props = [json.loads(l) for l in open(os.path.join(V, "properties.jsonl"))]
-E1_NOTE = ("Bounded: capacities 1-3 (thorough 1-4), key universe capacity+1..2, range length <= 2 (thorough 3), TTL/tick sets "
+E1_NOTE = ("Bounded: capacities 1-3 (thorough 1-4; lru/mru/fifo 1-5, thorough 1-7, and 1-6 in the quick tier of C10/C12/C13), key universe capacity+1..2, range length <= 2 (thorough 3), TTL/tick sets "
            "{0,1,2(,3)} ms, 1 ms clock grid plus a budget of +-1 ns deviations around model deadlines, lfu/lfuda use counts capped "
            "(cmax). Trusted: g++/libstdc++, link-time replacement of steady_clock::now, completeness of the white-box state key "
            "(cross-checked by a merge-free sweep and canon-on-replay), slot-relabelling symmetry of the vector-backed caches, the reference model "
